@@ -9,7 +9,7 @@ pub mod runner;
 pub use known::Known;
 pub use panics::{catch, PanicInfo};
 pub use record::{Recorder, SubStats};
-pub use runner::{run_indexed, run_list, run_proptest, PtCfg};
+pub use runner::{run_indexed, run_list, run_proptest, sample, PtCfg};
 
 use serde::{Deserialize, Serialize};
 
